@@ -673,7 +673,11 @@ class Frame:
                     return spread[0]
         if len(e.generators) == 1:
             dom = self.eval(e.generators[0].iter, st)
-            if _concrete_domain(dom):
+            # a *name* bound to a literal list / tuple (e.g. the *args of an inlined helper) is iterated concretely;
+            # inline literals such as `all(x is not None for x in [a, b, c])` stay symbolic (rules match that idiom)
+            named_literal = isinstance(e.generators[0].iter, ast.Name) and isinstance(dom, tuple) and dom and dom[0] in ("l", "t") and 0 < len(dom[1]) <= 12 \
+                and not e.generators[0].ifs
+            if _concrete_domain(dom) or named_literal:
                 out, ok = [], True
                 for el in dom[1]:
                     sub = st.copy()
